@@ -48,6 +48,11 @@ CHECKS.update({
    text="TLC checks in every reachable state of the bounded sequential model that a compaction at any R, interrupted after any number of deletions or with any single deletion failing (certain error or failed compare), leaves all reads at R' >= R unchanged and every key writable. TLC-generated histories containing such interrupted/failing compactions (followed by more writes) are executed on memkv, Badger, TiKV mock and the metrics wrapper; the monitor CompactionPreservesReads is evaluated at every logged Del/DelCurrent against the reconstructed store, and reads at every revision >= floor are compared with the reference. Free-running runs add real concurrency between writers, the compactor and readers.",
    ref="6/C07"),
 })
+CHECKS.update({
+ "C09": dict(technique="TLA+ spec (KubeBrain.tla: engine answers ok/error/unknown-applied/unknown-not-applied on every commit incl. the repair write, repair loop, compaction request) model-checked by TLC; TLC schedules with the chosen faults injected at the storage interface replayed on the real backend; TLC trace validation (UnknownIsError, RepairCondition, Converged, CompactClamp, ...)",
+   text="TLC explores every placement of up to 2-3 faults over create/update/delete commits and over the repair write, in both variants (applied / not applied), interleaved with a second writer and a compaction request, and checks Converged (events replayed over the initial snapshot = final store), AckedDurable, CompactClamp, RepairStillPossible, NoOvertake and Resolved. The generated schedules are replayed on memkv, TiKV mock and Badger with the same answers injected by the recording engine wrapper and the repair loop as a gated process; every trace is judged by the monitors, with a watcher from the first revision providing the delivered events.",
+   ref="6/C09"),
+})
 NA = {
  "C19": "data-race freedom is a property of memory accesses under the Go memory model; a TLA+ specification has no notion of an unsynchronised access and trace validation cannot observe one (see DESIGN.md section 6, C19)",
 }
